@@ -46,6 +46,7 @@ class TypeGen:
         self.allow_generic = allow_generic
         self.allow_none_scalar = allow_none_scalar
         self.lit_conflate = False
+        self.allow_self = True
         self.dc_config_fn = dc_config_fn
         self.mixins = mixins
         self.vgen = Gen(fam, rng)
@@ -313,6 +314,12 @@ class TypeGen:
             fields.append(f)
         if mixin is None:
             mixin = r.choice(self.mixins) if r.random() < self.mixin_prob else None
+        if self.allow_self and r.random() < 0.12:
+            # recursive field typed Self (always defaulted so instances terminate)
+            if r.random() < 0.5:
+                fields.append({"n": "nxt", "t": ("opt", ("self",), "Optional"), "dmode": "default", "dseed": 0, "const_default": None})
+            else:
+                fields.append({"n": "kids", "t": ("seq", r.choice(["List", "list"]), ("self",)), "dmode": "factory", "dseed": 0, "const_default": []})
         d = {"k": "dc", "name": name, "bases": [], "mixin": mixin, "fields": fields}
         cfg = config if config is not None else (self.dc_config_fn(r) if self.dc_config_fn else None)
         if cfg:
@@ -338,6 +345,8 @@ class TypeGen:
     def _fix_defaults(self, d):
         """unhashable defaults must be factories (dataclass rule)."""
         for f in d["fields"]:
+            if "const_default" in f:
+                continue
             if f.get("dmode") == "default":
                 v = self.value_maker(f["t"], f["dseed"])
                 if type(v).__hash__ is None:
